@@ -36,6 +36,25 @@ class Engine(EngineBase, ExprMixin, CompMixin, CallMixin, FuncMixin, StmtMixin):
         self.fn_info = {}
 
     # ------------------------------------------------------------------
+    def prepare_inputs(self, target: str):
+        """Only the typed symbolic inputs of a function under contract (for the native small-scope search)."""
+        con = REG.contracts[target]
+        module, qual = target.split(":")
+        fdef = extract.find_def(module, qual)
+        parts = qual.split(".")
+        cls = parts[-2] if len(parts) >= 2 and parts[-2] in self.ct.classes else None
+        decos = [ast.unparse(d) for d in fdef.decorator_list]
+        ptypes = self.param_types(fdef, con, cls)
+        self.input_vars = {}
+        for a in fdef.args.posonlyargs + fdef.args.args + fdef.args.kwonlyargs:
+            if a.arg == "cls" and "classmethod" in decos:
+                continue
+            if a.arg not in ptypes:
+                raise EngineError(f"parameter {a.arg!r} of {target} has no usable type")
+            self.input_vars[a.arg] = fresh(ptypes[a.arg], a.arg)
+        self.fn_info[target] = {"hash": extract.source_hash(fdef), "file": extract.module_path(module),
+                                "line": fdef.lineno, "mode": con.mode}
+
     def verify_function(self, target: str):
         """Generate the obligations of one function under contract.  Returns list[Obligation]."""
         con = REG.contracts[target]
